@@ -27,8 +27,10 @@ var (
 	verifGood []byte
 )
 
-func verifPickName() {
-	k := verif.Len("good-len", 0, verif.Bound("blob-len", 2, 3))
+func verifPickName() { verifPickNameLen(0, verif.Bound("blob-len", 2, 3)) }
+
+func verifPickNameLen(lo, hi int) {
+	k := verif.Len("good-len", lo, hi)
 	verifGood = []byte("abcd"[:k])
 	d, err := core.NewDigester().FromBytes(verifGood)
 	if err != nil {
@@ -63,9 +65,13 @@ func verifCAS(mem bool, maxSize uint64) *CAStore {
 // SHA-256 bytes (hex encoding is injective, so this is the same fact as
 // comparing the hex digests, but far cheaper for the solver than 64
 // table-lookup characters).
-func verifMatches(b []byte) bool {
+func verifMatches(b []byte) bool { return verifMatchesName(b, verifD, verifGood) }
+
+// verifMatchesName is verifMatches for an explicit (name, reference content)
+// pair (harnesses with two names).
+func verifMatchesName(b []byte, d string, good []byte) bool {
 	sum := sha256.Sum256(b)
-	want, err := hex.DecodeString(verifD)
+	want, err := hex.DecodeString(d)
 	if err != nil || len(want) != len(sum) {
 		panic("bad reference digest")
 	}
@@ -73,7 +79,7 @@ func verifMatches(b []byte) bool {
 	for i := range sum {
 		m = verif.And(m, sum[i] == want[i])
 	}
-	verif.Assume(verif.Implies(m, bytes.Equal(b, verifGood)))
+	verif.Assume(verif.Implies(m, bytes.Equal(b, good)))
 	return m
 }
 
